@@ -74,6 +74,9 @@ func runConcurrent(fams string, n int, seed int64, g int) {
 		}(w)
 	}
 	wg.Wait()
+	if m := pointsModified(); m != "" && bad == "" {
+		bad = m // a shared argument object was written by the library
+	}
 	res := "OK"
 	if bad != "" {
 		res = bad
